@@ -21,6 +21,10 @@ structure PrevLevelOK (pl l : Level) : Prop where
   scheme : l.scheme = pl.scheme
   t : l.t = pl.t
 
+/-- the level is a prefix of its previous level: `PkRel` of the previous level carries over (`PkRel.lower`) -/
+theorem PrevLevelOK.levelPrefix {pl l : Level} (h : PrevLevelOK pl l) : LevelPrefix l pl :=
+  ⟨by have := h.next.size; omega, h.next.n, h.next.q, h.tbl⟩
+
 /-- public key through the previous level, with the standard bounds (ternary s and u, errors ≤ 21, public-key error ≤ 21): a fresh
     encryption of zero at `l` whose noise is at most `spBound q_L (21(2N+1)) slack N` = ⌊(2·21(2N+1) + slack·q_L(1+N)) / (2 q_L)⌋ -/
 theorem encryptZeroInternal_fresh_pk_prev_bounded {pl l : Level} (h : PrevLevelOK pl l)
